@@ -48,10 +48,18 @@ Record cfg := mkcfg {
   app_route : akind -> route;
   lib_route : lkind -> layer * (bool * bool);   (* issuing layer, success cb?, error cb? *)
   strict_reply : bool;  (* YowProtocolLayer.processIqRegistry consumes an entry only for type result/error *)
-  strict_iface : bool   (* the same for YowInterfaceLayer.processIqRegistry *)
+  strict_iface : bool;  (* the same for YowInterfaceLayer.processIqRegistry *)
+  late_delete : bool;   (* YowProtocolLayer.processIqRegistry removes the entry AFTER the callback
+                           dispatch (the code removes it BEFORE: false) *)
+  late_delete_iface : bool  (* the same for YowInterfaceLayer.processIqRegistry *)
 }.
 
-Record entry := mkentry { ereq : request; ehs : bool; ehe : bool }.
+(* what the application's callbacks do when invoked: the usual "retry" pattern re-issues the
+   ORIGINAL request entity (same id) from inside the callback, a bounded number of times *)
+Record retry := mkretry { rs : bool; re : bool; budget : nat }.
+Definition no_retry : retry := mkretry false false 0.
+
+Record entry := mkentry { ereq : request; ehs : bool; ehe : bool; ert : retry }.
 Definition reg := list (N * entry).
 
 Record state := mkstate { next : N; app : reg; regs : layer -> reg }.
@@ -66,7 +74,7 @@ Inductive event :=
 | EvPong (i : N).                                    (* iq layer answered a server ping *)
 
 Inductive op :=
-| AppRequest (k : akind) (hs he : bool)     (* interface._sendIq(entity, onSuccess?, onError?) *)
+| AppRequest (k : akind) (hs he : bool) (rt : retry)   (* interface._sendIq(entity, onSuccess?, onError?) *)
 | LibRequest (lk : lkind)
 | Deliver (i : N) (t : ityp) (sh : shape)   (* incoming <iq id=i type=t> *)
 | DeliverOther (i : N).                     (* incoming non-iq stanza carrying id i *)
@@ -102,17 +110,53 @@ Definition consumes (c : cfg) (t : ityp) : bool := if strict_reply c then is_rep
 Definition iconsumes (c : cfg) (t : ityp) : bool := if strict_iface c then is_reply t else true.
 Definition typ_of (w : which) : ityp := match w with Success => TResult | Error => TError end.
 
+Definition cb_flag (hs he : bool) (w : which) : bool := match w with Success => hs | Error => he end.
+Definition retry_flag (rt : retry) (w : which) : bool := match w with Success => rs rt | Error => re rt end.
+Definition which_of (t : ityp) : option which :=
+  match t with TResult => Some Success | TError => Some Error | _ => None end.
+
+(* the callbacks handed to the re-issued request, if the invoked callback w retries *)
+Definition next_retry (hs he : bool) (rt : retry) (w : which) : option retry :=
+  if cb_flag hs he w && retry_flag rt w then
+    match budget rt with S n => Some (mkretry (rs rt) (re rt) n) | O => None end
+  else None.
+
+(* YowInterfaceLayer._sendIq(entity, ...) for an entity that already has its id i (= rid r: every
+   entry is stored under its request's id): registers in the application registry, then
+   YowParallelLayer.send hands it to the layer that claims the kind *)
+Definition reissue (c : cfg) (st : state) (i : N) (r : request) (hs he : bool) (rt : retry)
+  : state * list event :=
+  match rorigin r with
+  | OApp k =>
+    let st0 := set_app st ((i, mkentry r hs he rt) :: app st) in
+    match app_route c k with
+    | RReg l s e => (set_reg st0 l ((i, mkentry r s e no_retry) :: regs st0 l), [EvSent i])
+    | RFwd _ => (st0, [EvSent i])
+    | RNone => (st0, [])
+    end
+  | OLib _ => (st, [])
+  end.
+
 (* YowInterfaceLayer.receive(entity) for an iq entity with id i and type t *)
 Definition to_interface (c : cfg) (st : state) (i : N) (t : ityp) : state * list event :=
   match (if iconsumes c t then lookup i (app st) else None) with
   | Some e =>
-    (set_app st (remove i (app st)),
-     EvIface i t ::
-     match t with
-     | TResult => if ehs e then [EvApp i Success (ereq e)] else []
-     | TError => if ehe e then [EvApp i Error (ereq e)] else []
-     | _ => []
-     end)
+    let removed := set_app st (remove i (app st)) in
+    match which_of t with
+    | Some w =>
+      if cb_flag (ehs e) (ehe e) w then
+        (* the callback runs -- with the entry already removed, unless the table says late *)
+        let st_d := if late_delete_iface c then st else removed in
+        let '(st2, ev2) :=
+          match next_retry (ehs e) (ehe e) (ert e) w with
+          | Some rt' => reissue c st_d i (ereq e) (ehs e) (ehe e) rt'
+          | None => (st_d, [])
+          end in
+        ((if late_delete_iface c then set_app st2 (remove i (app st2)) else st2),
+         EvIface i t :: EvApp i w (ereq e) :: ev2)
+      else (removed, [EvIface i t])
+    | None => (removed, [EvIface i t])
+    end
   | None => (st, [EvIface i t; EvTop i])
   end.
 
@@ -132,12 +176,13 @@ Definition try_layer (c : cfg) (st : state) (l : layer) (i : N) (t : ityp)
   if consumes c t then
     match lookup i (regs st l) with
     | Some e =>
-      let st1 := set_reg st l (remove i (regs st l)) in
-      Some (match t with
-            | TResult => if ehs e then fire c st1 i e Success else (st1, [])
-            | TError => if ehe e then fire c st1 i e Error else (st1, [])
-            | _ => (st1, [])
-            end)
+      let st_d := if late_delete c then st else set_reg st l (remove i (regs st l)) in
+      let '(st2, ev) := match t with
+                        | TResult => if ehs e then fire c st_d i e Success else (st_d, [])
+                        | TError => if ehe e then fire c st_d i e Error else (st_d, [])
+                        | _ => (st_d, [])
+                        end in
+      Some ((if late_delete c then set_reg st2 l (remove i (regs st2 l)) else st2), ev)
     | None => None
     end
   else None.
@@ -184,26 +229,22 @@ Definition deliver (c : cfg) (st : state) (i : N) (t : ityp) (sh : shape) : stat
     end
   end.
 
-Definition app_request (c : cfg) (st : state) (k : akind) (hs he : bool) : state * list event :=
+Definition app_request (c : cfg) (st : state) (k : akind) (hs he : bool) (rt : retry)
+  : state * list event :=
   let i := next st in
-  let r := mkreq i (OApp k) in
-  let st0 := mkstate (N.succ i) ((i, mkentry r hs he) :: app st) (regs st) in
-  match app_route c k with
-  | RReg l s e => (set_reg st0 l ((i, mkentry r s e) :: regs st0 l), [EvIssued i; EvSent i])
-  | RFwd _ => (st0, [EvIssued i; EvSent i])
-  | RNone => (st0, [EvIssued i])
-  end.
+  let '(st1, ev) := reissue c (mkstate (N.succ i) (app st) (regs st)) i (mkreq i (OApp k)) hs he rt in
+  (st1, EvIssued i :: ev).
 
 Definition lib_request (c : cfg) (st : state) (lk : lkind) : state * list event :=
   let i := next st in
   let r := mkreq i (OLib lk) in
   let '(l, (s, e)) := lib_route c lk in
   let st0 := mkstate (N.succ i) (app st) (regs st) in
-  (set_reg st0 l ((i, mkentry r s e) :: regs st0 l), [EvIssued i; EvSent i]).
+  (set_reg st0 l ((i, mkentry r s e no_retry) :: regs st0 l), [EvIssued i; EvSent i]).
 
 Definition step (c : cfg) (st : state) (o : op) : state * list event :=
   match o with
-  | AppRequest k hs he => app_request c st k hs he
+  | AppRequest k hs he rt => app_request c st k hs he rt
   | LibRequest lk => lib_request c st lk
   | Deliver i t sh => deliver c st i t sh
   | DeliverOther _ => (st, [])
@@ -257,6 +298,24 @@ Definition expected (hs he : bool) (fr : option which) (r : request) : list (whi
   | None => []
   end.
 
+(* With retries: every issue and re-issue of id i gets exactly the callback of the first reply
+   after THAT issue.  [armed] = the retry policy of the currently outstanding issue, None once
+   nothing is outstanding any more. *)
+Fixpoint expected_seq (i : N) (hs he : bool) (r : request) (armed : option retry) (h : list op)
+  : list (which * request) :=
+  match h with
+  | [] => []
+  | Deliver j t _ :: h' =>
+    match armed, which_of t with
+    | Some rt, Some w =>
+      if N.eqb i j then
+        (if cb_flag hs he w then [(w, r)] else []) ++ expected_seq i hs he r (next_retry hs he rt w) h'
+      else expected_seq i hs he r armed h'
+    | _, _ => expected_seq i hs he r armed h'
+    end
+  | _ :: h' => expected_seq i hs he r armed h'
+  end.
+
 (* the reply shape the server uses for a kind (only contact sync replies carry <sync>) *)
 Definition shape_of (k : akind) : shape := match k with KSync => ShSync | _ => ShPlain end.
 
@@ -304,7 +363,8 @@ Definition kind_ok (c : cfg) (k : akind) : bool :=
   end.
 
 Definition cfg_ok (c : cfg) : bool :=
-  strict_reply c && forallb (fun k => negb (in_domain k) || kind_ok c k) all_akinds.
+  strict_reply c && negb (late_delete c) && negb (late_delete_iface c) &&
+  forallb (fun k => negb (in_domain k) || kind_ok c k) all_akinds.
 
 (* ---------- the pinned tree BEFORE the C08 fixes (kept for the _refuted witnesses) ---------- *)
 
@@ -333,4 +393,4 @@ Definition lib_route_unrepaired (lk : lkind) : layer * (bool * bool) :=
   | LKPing => (LIq, (true, false))
   end.
 
-Definition cfg_unrepaired : cfg := mkcfg route_unrepaired lib_route_unrepaired false false.
+Definition cfg_unrepaired : cfg := mkcfg route_unrepaired lib_route_unrepaired false false false false.
